@@ -15,6 +15,7 @@ import (
 	"math"
 	"math/rand"
 	"os"
+	"runtime"
 	"strconv"
 	"strings"
 
@@ -128,6 +129,11 @@ type afunc struct {
 }
 
 func emitAugment(id string, content []byte, files map[string]string, base string, frames, floats string) {
+	emitAugmentOpts(id, content, files, base, frames, floats, false)
+}
+
+// realGoroot: use the installed GOROOT (real tracebacks contain runtime frames)
+func emitAugmentOpts(id string, content []byte, files map[string]string, base string, frames, floats string, realGoroot bool) {
 	l := &layout{base: base, files: files}
 	if err := l.materialise(); err != nil {
 		panic(err)
@@ -141,6 +147,9 @@ func emitAugment(id string, content []byte, files map[string]string, base string
 			}
 		}()
 		opts := &stack.Opts{LocalGOROOT: base + "/nogoroot", GuessPaths: true, AnalyzeSources: true}
+		if realGoroot {
+			opts.LocalGOROOT = runtime.GOROOT()
+		}
 		rd := &scriptedReader{rest: append([]byte{}, content...), final: finalOf("eof"), w: &recWriter{}}
 		s, _, _ := stack.ScanSnapshot(rd, rd.w, opts)
 		if s == nil {
@@ -154,6 +163,9 @@ func emitAugment(id string, content []byte, files map[string]string, base string
 	func() {
 		defer func() { recover() }()
 		opts := &stack.Opts{LocalGOROOT: base + "/nogoroot", GuessPaths: true}
+		if realGoroot {
+			opts.LocalGOROOT = runtime.GOROOT()
+		}
 		rd := &scriptedReader{rest: append([]byte{}, content...), final: finalOf("eof"), w: &recWriter{}}
 		if s, _, _ := stack.ScanSnapshot(rd, rd.w, opts); s != nil {
 			plain = sexpGoroutines(s.Goroutines)
